@@ -1,4 +1,177 @@
-/- Driver of the `proxydex` world (stub: to be written by the owner of this world). -/
+/-
+  Driver of the `proxydex` world: replays an ops file through `Mx.ProxyDex.step` and prints one
+  result line per op line.  Import-free apart from Core/Driver modules.
+
+  Op text = `<op> <caller> <arguments…> -> <callee responses recorded by the harness>`;
+  `-> fail` : a callee (or the VM: insufficient funds) rejected the transaction — the model cannot
+  know, the result is `err`; `-> ?` : the proxy's own guard rejected it — the model must reject it
+  too (it is run with empty responses).
+-/
+import MxModel.Core.ProxyDex
 import MxModel.Driver.Proto
 
-def main : IO Unit := Mx.Proto.mainLoop () (fun s _ => (s, none))
+open Mx Mx.ProxyDex Mx.Proto
+
+namespace Mx.ProxydexDriver
+
+/-- `n:a` -/
+def parsePair (t : String) : Option (Nat × Nat) :=
+  match t.splitOn ":" with
+  | [a, b] => do pure (← a.toNat?, ← b.toNat?)
+  | _ => none
+
+/-- `n:a,n:a` or `-` -/
+def parsePairs (t : String) : Option (List (Nat × Nat)) :=
+  if t = "-" then some [] else (t.splitOn ",").mapM parsePair
+
+/-- `k:amt@unl` -/
+def parseLk (t : String) : Option LkTok :=
+  match t.splitOn "@" with
+  | [a, u] => do
+      let (k, amt) ← parsePair a
+      pure ⟨k, amt, ← u.toNat?⟩
+  | _ => none
+
+def parseLkOpt (t : String) : Option (Option LkTok) :=
+  if t = "-" then some none else (parseLk t).map some
+
+def parseLks (t : String) : Option (List LkTok) :=
+  if t = "-" then some [] else (t.splitOn ",").mapM parseLk
+
+def farmId : String → Nat
+  | "L" => 0
+  | _ => 1
+
+def splitArrow (ws : List String) : List String × List String :=
+  (ws.takeWhile (· ≠ "->"), (ws.dropWhile (· ≠ "->")).drop 1)
+
+def kvD (r : List String) (k : String) (d : String) : String := (kv r k).getD d
+
+/-- parse an op; `guess = true` fills in empty responses (for `-> ?`) -/
+def parseOp (a r : List String) (guess : Bool) : Option Op :=
+  let g := fun (k : String) (d : String) => if guess then d else kvD r k "!"
+  match a with
+  | ["lock", _u, _amt, _opt] => do
+      pure (.lock ⟨← (g "k" "0").toNat?, 0, ← (g "unl" "0").toNat?⟩)
+  | ["advance", e, _b] => do pure (.advance (← e.toNat?))
+  | "swap" :: _ => some .noop
+  | "bad" :: _ => if guess then none else some .noop
+  | ["addLiq", _u, kl, oa, _mb, _mo, merge] => do
+      let (k, la) ← parsePair kl
+      let mk ← if guess then some none else
+        match kv r "mk" with
+        | some t => (parseLk t).map some
+        | none => some none
+      pure (.addLiq k la (← oa.toNat?) (← parsePairs merge) (← (g "lp" "0").toNat?)
+        (← (g "ul" "0").toNat?) (← (g "uo" "0").toNat?) mk)
+  | ["removeLiq", _u, wx, _mb, _mo] => do
+      let (w, x) ← parsePair wx
+      pure (.removeLiq w x (← (g "base" "0").toNat?) (← (g "other" "0").toNat?))
+  | [op, _u, f, tok, merge] =>
+      if op = "enterL" ∨ op = "enterW" then do
+        let (n, a) ← parsePair tok
+        let ml ← parsePairs merge
+        let ft ← parsePair (g "farm" "0:0")
+        let rew ← parseLkOpt (g "rew" "-")
+        let m ← if guess then some (some ((0, 0), ⟨0, 0, 0⟩)) else
+          match kv r "mfarm", kv r "mk" with
+          | some x, some y => do pure (some (← parsePair x, ← parseLk y))
+          | _, _ => some none
+        let stray ← parseLks (if guess then "-" else kvD r "stray" "-")
+        if op = "enterL" then pure (.enterL (farmId f) n a ml ft rew m stray)
+        else pure (.enterW (farmId f) n a ml ft rew m stray)
+      else none
+  | ["exit", _u, f, tok] => do
+      let (n, x) ← parsePair tok
+      pure (.exitFarm (farmId f) n x (← (g "farming" "0").toNat?) (← parseLkOpt (g "rew" "-")))
+  | ["claim", _u, f, tok] => do
+      let (n, x) ← parsePair tok
+      pure (.claim (farmId f) n x (← parsePair (g "farm" "0:0")) (← parseLkOpt (g "rew" "-")))
+  | ["mergeLp", _u, l] => do
+      pure (.mergeLp (← parsePairs l) (← parseLk (g "mk" "0:0@0")))
+  | ["mergeFarm", _u, f, l] => do
+      pure (.mergeFarm (farmId f) (← parsePairs l) (← parsePair (g "mfarm" "0:0"))
+        (← parseLk (g "mk" "0:0@0")) (← parseLks (if guess then "-" else kvD r "stray" "-")))
+  | ["incLp", _u, wx, _e] => do
+      let (w, x) ← parsePair wx
+      pure (.incLp w x (← parseLk (g "nk" "0:0@0")))
+  | ["incFarm", _u, fx, _e] => do
+      let (f, x) ← parsePair fx
+      pure (.incFarm f x (← parseLk (g "nk" "0:0@0")))
+  | _ => none
+
+def showPair (p : Nat × Nat) : String := if p.2 = 0 then "-" else s!"{p.1}:{p.2}"
+
+def showBag (b : Nat → Nat) (bound : Nat) : String :=
+  let l := (List.range (bound + 1)).filterMap fun i => if b i = 0 then none else some s!"{i}:{b i}"
+  if l.isEmpty then "-" else ",".intercalate l
+
+def showIdx {α : Type} (l : List α) (f : α → Nat) : String :=
+  let r := (l.zipIdx).filterMap fun (a, i) => if f a = 0 then none else some s!"{i}:{f a}"
+  if r.isEmpty then "-" else ",".intercalate r
+
+def kindNum : Kind → Nat
+  | .locked => 0
+  | .wlp => 1
+
+def showNewW (s : St) (n : Nat) : String :=
+  if n = 0 then "-" else
+  match s.wl[n]? with
+  | some r => s!"{n}:{r.total},{r.k},{r.locked}"
+  | none => "-"
+
+def showNewF (s : St) (n : Nat) : String :=
+  if n = 0 then "-" else
+  match s.wf[n]? with
+  | some r => s!"{n}:{r.farm},{r.fn},{r.fa},{kindNum r.kind},{r.pn},{r.pa}"
+  | none => "-"
+
+def showOut (s : St) (o : Out) : String :=
+  s!"b={o.base} l={showPair o.locked} o={o.other} w={showPair o.wOut} f={showPair o.fOut} " ++
+  s!"r={showPair o.rew} bl={showPair o.burned} e={o.eDed} nw={showNewW s o.newW} nf={showNewF s o.newF}"
+
+def showState (s : St) (bound : Nat) : String :=
+  s!"now={s.now} lp={s.lp} base=0 other=0 lk={showBag s.lk bound} fl={showBag (s.hf 0) bound} " ++
+  s!"fw={showBag (s.hf 1) bound} hw={showIdx s.wl (fun r => r.held + r.orph)} " ++
+  s!"cw={showIdx s.wl (·.circ)} cf={showIdx s.wf (·.circ)} net={s.net}"
+
+/-- largest number that appears as a nonce (`n:` prefix) anywhere in the line -/
+def maxNonce (ws : List String) : Nat :=
+  ws.foldl (fun m w =>
+    let w' := match w.splitOn "=" with
+      | [_, v] => v
+      | _ => w
+    (w'.splitOn ",").foldl (fun m t =>
+      match t.splitOn ":" with
+      | a :: _ :: _ => max m (a.toNat?.getD 0)
+      | _ => m) m) 0
+
+structure DSt where
+  s : St
+  bound : Nat
+
+def initOf (ws : List String) : DSt := ⟨init ((kvNat ws "epoch").getD 1), 0⟩
+
+def handle (d : DSt) (line : String) : DSt × Option String :=
+  match words line with
+  | "W" :: rest => (initOf rest, some (" ".intercalate ("W" :: rest)))
+  | "O" :: n :: rest =>
+      let (a, r) := splitArrow rest
+      let bound := max d.bound (maxNonce rest)
+      let d := { d with bound := bound }
+      match r with
+      | ["fail"] => (d, some s!"R {n} err")
+      | ["?"] =>
+          match (parseOp a [] true).bind (step d.s) with
+          | some _ => (d, some s!"R {n} ok ? (the model accepts what the proxy's own guard rejected)")
+          | none => (d, some s!"R {n} err")
+      | _ =>
+          match (parseOp a r false).bind (step d.s) with
+          | some (s', o) => ({ d with s := s' }, some s!"R {n} ok {showOut s' o} | {showState s' bound}")
+          | none => (d, some s!"R {n} err")
+  | "Q" :: n :: _ => (d, some s!"V {n} err")
+  | _ => (d, none)
+
+end Mx.ProxydexDriver
+
+def main : IO Unit := Mx.Proto.mainLoop (Mx.ProxydexDriver.initOf []) Mx.ProxydexDriver.handle
